@@ -549,6 +549,11 @@ func (ex *Executor) loadLoc(st *State, l *LocV) Value {
 // package variables are treated as immutable after init (assumption
 // A-globals, checked by the frame sweep for in-repo writers).
 func (ex *Executor) globalValue(st *State, l *LocV) (Value, bool) {
+	if fn := ex.Prog.GlobalFuncs[l.Path]; fn != nil {
+		// package-level func variable, immutable after init (assumption
+		// A-globals): resolve to the function it was initialised with
+		return &FuncV{Fn: fn}, true
+	}
 	if types.Identical(l.T, types.Universe.Lookup("error").Type()) {
 		t := App(l.Path, SInt, l.Base)
 		key := t.String()
